@@ -373,6 +373,10 @@ struct FixedCase
   std::string crash_sig;
 };
 std::vector<FixedCase> fixed_cases();
+// optional auxiliary mode of a property binary (exe --aux ...), e.g. a helper
+// process for cross-process comparisons
+extern "C" int prop_aux(int argc, char** argv) __attribute__((weak));
+static std::string g_self;  // path of this executable
 
 static std::string record_failure(const Src& s, const CaseInfo& ci, const std::string& msg)
 {
@@ -509,6 +513,13 @@ static int replay_file(const std::string& path)
 
 int main(int argc, char** argv)
 {
+  g_self = argv[0];
+  if (argc > 1 && std::string(argv[1]) == "--aux")
+  {
+    ys_initialize();
+    prop_init();
+    return prop_aux ? prop_aux(argc, argv) : 2;
+  }
   std::string replay;
   bool fixed = false;
   uint64_t cases = 1000;
